@@ -197,7 +197,7 @@ fn histories(cli: &Path, work: &Path, rep: &mut Report, thorough: bool) {
     let inp_b = work.join("hist_in_b.rs");
     std::fs::write(&inp_b, src.replace("[0-9]+", "[0-7]+")).unwrap();
     let _ = std::process::Command::new("touch").args(["-d", "2001-01-01 00:00:00", inp_b.to_str().unwrap()]).status();
-    let ops = ["write", "check", "stale", "crlf", "addnl", "delete", "writeB", "checkB", "garbage"];
+    let ops = ["write", "check", "stale", "crlf", "addnl", "delete", "writeB", "checkB", "garbage", "addbin", "trunc"];
     // all op sequences of length 1..=4 (breadth-first order); each is replayed from scratch. Quick
     // tier: length 4 only over the first six operations, the three further ones up to length 3
     let mut all: Vec<Vec<&str>> = vec![];
@@ -308,6 +308,22 @@ fn histories(cli: &Path, work: &Path, rep: &mut Report, thorough: bool) {
                             let mut c = c.clone();
                             c.push(b'\n');
                             std::fs::write(&out, c).unwrap();
+                        }
+                    }
+                    "addbin" => {
+                        // a further line that is not text, after whatever the file holds
+                        if let Some(c) = &before {
+                            let mut c = c.clone();
+                            c.extend_from_slice(b"\xff\xfe junk\n");
+                            std::fs::write(&out, c).unwrap();
+                        }
+                    }
+                    "trunc" => {
+                        // the last line is cut off (the file is a proper prefix of what it held)
+                        if let Some(c) = &before {
+                            let body = if c.ends_with(b"\n") { &c[..c.len() - 1] } else { &c[..] };
+                            let cut = body.iter().rposition(|x| *x == b'\n').map_or(0, |i| i + 1);
+                            std::fs::write(&out, &c[..cut]).unwrap();
                         }
                     }
                     "garbage" => {
